@@ -173,7 +173,8 @@ def obs(f):
         tfs = '_'
 
     def fr(x):
-        return lib.show_rat(Fraction(float(x)))
+        # a scalar attribute, or the element of a 0-d / one-element array
+        return lib.show_rat(Fraction(float(np.asarray(x).ravel()[0])))
     st = dict(grid=1 if grid else 0, nT=dims.get('TSTEP', 0), nL=dims.get('LAY', 0), nR=dims.get('ROW', 0),
               nC=dims.get('COL', 0), nP=dims.get('PERIM', 0), varDim=dims.get('VAR', 0), vars=';'.join(vs) or '-',
               tflag=tfs, nvars=int(getattr(f, 'NVARS', 0)), varlist=lib.show_list(names),
